@@ -126,7 +126,20 @@ def kf_c16_mosek_status():
         sys.path.pop(0)
 
 
+def kf_c07_zero_function_point():
+    """stationary_point() of the zero function records a free leaf as its value (true value 0): maximising it is unbounded"""
+    from PEPit import PEP
+    import PEPit.functions as PF
+    pep = PEP(); f1 = pep.declare_function(PF.ConvexFunction); f0 = f1 - f1
+    xs, gs, fs = f0.stationary_point(return_gradient_and_function_value=True)
+    x, gx, fx = f0.fixed_point()
+    free_value = bool(edict(fs)) and len(f1.list_of_points) == 0          # a leaf expression nothing relates to the (empty) sum
+    free_fixed = bool(pdict(gx))                                          # g = x although the sum of no terms is 0
+    return free_value and free_fixed
+
+
 WITNESS = {
+    "KF-C07-zero-function-point": kf_c07_zero_function_point,
     "KF-C13-stale-cache": kf_c13_stale_cache, "KF-C13-objective-leaf": kf_c13_objective_leaf,
     "KF-C13-partition-growth": kf_c13_partition_growth, "KF-C17-blocksmooth-tables": kf_c17_blocksmooth,
     "KF-C17-linear-operator-tables": kf_c17_linop, "KF-C17-linear-operator-names": kf_c17_linop, "KF-C01-nonsymmetric-lmi": kf_c01_nonsym_lmi,
